@@ -24,7 +24,7 @@ OBS = ('iter', 'length', 'merged', 'merged_mutate', 'play', 'play_abandon', 'sav
 EDITS = ('add_track', 'tracks_append', 'tracks_insert', 'tracks_pop', 'tracks_set', 'tracks_replace',
          'track_append', 'track_insert', 'track_extend', 'track_pop', 'track_sort', 'track_set',
          'msg_time', 'msg_note', 'tempo_set', 'track_name', 'set_type', 'set_tpb', 'track_slice_del', 'track_iadd',
-         'track_clear', 'bad_assign', 'export', 'bad_track_name')
+         'track_clear', 'bad_assign', 'export', 'bad_track_name', 'slice_copy', 'text_set')
 
 
 def mk(spec):
@@ -34,7 +34,7 @@ def mk(spec):
     if k == 'tempo':
         return MetaMessage('set_tempo', tempo=spec[1], time=spec[2])
     if k == 'text':
-        return MetaMessage('text', text=f't{spec[1]}', time=spec[2])
+        return MetaMessage('text', text=(f't{spec[1]}' if spec[1] % 4 else f'\xe9{spec[1]}'), time=spec[2])
     if k == 'eot':
         return MetaMessage('end_of_track', time=spec[2])
     if k == 'clock':
@@ -93,7 +93,10 @@ def expected_events(track):
         elif m.type == 'set_tempo':
             out.append((d, 'meta', 0x51, m.tempo.to_bytes(3, 'big')))
         elif m.type == 'text':
-            out.append((d, 'meta', 0x01, m.text.encode('latin1')))
+            try:
+                out.append((d, 'meta', 0x01, m.text.encode('latin1')))
+            except UnicodeEncodeError:
+                return None
         elif m.type == 'track_name':
             out.append((d, 'meta', 0x03, m.name.encode('latin1')))
         elif m.type == 'sequencer_specific':
@@ -151,12 +154,12 @@ class History(BaseEngine):
                                    ('track_set', 1), ('msg_time', 2.5), ('msg_note', 1), ('tempo_set', 1.5),
                                    ('track_name', 0.7), ('set_type', 0.7), ('set_tpb', 1), ('track_slice_del', 0.7),
                                    ('track_iadd', 0.7), ('track_clear', 0.4), ('bad_assign', 1.2), ('export', 1.0),
-                                   ('bad_track_name', 0.5)))
+                                   ('bad_track_name', 0.5), ('slice_copy', 0.8), ('text_set', 1.0)))
                 ops.append(['edit', e, rng.randrange(1000), rng.randrange(1000),
                             [gen_msg(rng) for _ in range(rng.randint(1, 3))],
                             pick(rng, (0, 1, 10, 480, 1000, 96)), pick(rng, (0, 1, 2, 1, 1))])
         plan = {'prop': prop, 'init': init, 'type': pick(rng, (0, 1, 1, 1, 2)), 'tpb': pick(rng, (1, 96, 480)),
-                'tracks': tracks, 'ops': ops}
+                'tracks': tracks, 'ops': ops, 'hold_tracks': rng.random() < 0.3}
         if idx % 400 == 5:
             # a big file: thousands of messages, observed, edited in place (same tracks, same lengths), observed
             plan.update({'init': 'tracks', 'type': 1, 'bulk': rng.randint(4100, 5000)})
@@ -275,6 +278,16 @@ class History(BaseEngine):
             mfmod.time = self._saved
         raise ValueError(kind)
 
+    def _tl(self, target):
+        """The tracks list the application edits through: the attribute read afresh, or (plan['hold_tracks']) a
+        reference to it taken once and kept."""
+        if not self._hold_tracks:
+            return target.tracks
+        ref = self._tracks_ref.get(id(target))
+        if ref is None:
+            ref = self._tracks_ref[id(target)] = target.tracks
+        return ref
+
     def _apply(self, target, model, op, stats):
         """Apply one documented edit to `target` (a MidiFile) and, when model is given, to the plain
         model with list semantics written out here."""
@@ -284,7 +297,8 @@ class History(BaseEngine):
             fn_t(target)
             if model is not None:
                 fn_m(model)
-        nt = len(target.tracks)
+        tl = self._tl(target)
+        nt = len(tl)
         held = self._held.setdefault(id(target), {})
 
         def new_track(msgs, ti_hint):
@@ -302,15 +316,15 @@ class History(BaseEngine):
         elif e == 'tracks_append':
             new = [mk(s) for s in specs]
             obj = new_track(new, nt)
-            target.tracks.append(obj)
-            held[len(target.tracks) - 1] = obj
+            tl.append(obj)
+            held[len(tl) - 1] = obj
             if model is not None:
                 model['tracks'].append([dc(m) for m in new])
         elif e == 'tracks_insert':
             held.clear()
             i = a % (nt + 1)
             new = [mk(s) for s in specs]
-            target.tracks.insert(i, MidiTrack(dc(m) for m in new))
+            tl.insert(i, MidiTrack(dc(m) for m in new))
             if model is not None:
                 model['tracks'].insert(i, [dc(m) for m in new])
         elif e == 'tracks_pop':
@@ -318,9 +332,9 @@ class History(BaseEngine):
             if nt:
                 i = a % nt
                 if a % 2:
-                    target.tracks.pop(i)
+                    tl.pop(i)
                 else:
-                    del target.tracks[i]
+                    del tl[i]
                 if model is not None:
                     model['tracks'].pop(i)
         elif e == 'tracks_set':
@@ -328,22 +342,23 @@ class History(BaseEngine):
             if nt:
                 i = a % nt
                 new = [mk(s) for s in specs]
-                target.tracks[i] = MidiTrack(dc(m) for m in new)
+                tl[i] = MidiTrack(dc(m) for m in new)
                 if model is not None:
                     model['tracks'][i] = [dc(m) for m in new]
         elif e == 'tracks_replace':
             held.clear()
-            keep = [t for j, t in enumerate(target.tracks) if (a >> j) & 1]
+            keep = [t for j, t in enumerate(tl) if (a >> j) & 1]
             target.tracks = list(keep)
+            self._tracks_ref.pop(id(target), None)      # the application takes the new list from the file
             if model is not None:
                 model['tracks'] = [t for j, t in enumerate(model['tracks']) if (a >> j) & 1]
         elif e in ('track_append', 'track_insert', 'track_extend', 'track_pop', 'track_sort', 'track_set',
                    'msg_time', 'msg_note', 'tempo_set', 'track_name', 'track_slice_del', 'track_iadd', 'track_clear',
-                   'bad_assign', 'export', 'bad_track_name'):
+                   'bad_assign', 'export', 'bad_track_name', 'slice_copy', 'text_set'):
             if not nt:
                 return
             ti = a % nt
-            tr = target.tracks[ti]
+            tr = tl[ti]
             h = held.get(ti)
             if h is not None and len(h) == len(tr) and all(x is y or x == y for x, y in zip(h, tr)):
                 tr = h      # edit through the reference the caller kept when it added this track
@@ -435,9 +450,30 @@ class History(BaseEngine):
                         t.note = (t.note + 12) % 128
                     c = m.copy()
                     c.time = 3000
-                    b = m.bytes() if not (m.is_meta is False and m.type == 'clock') else []
-                    b.append(0)
+                    try:
+                        b = m.bytes()
+                        b.append(0)
+                    except UnicodeEncodeError:
+                        pass        # a text the default charset cannot express: bytes() refuses, as save() would
                 stats['fault:messages_exported_and_export_edited'] += 1
+            elif e == 'slice_copy':
+                # a copy of the track taken by slicing goes into ANOTHER file and is edited there
+                how = b % 3
+                cp = tr[:] if how == 0 else (tr[:n + 3] if how == 1 else (tr[-n:] if n else tr[:]))
+                other = MidiFile(type=1)
+                other.tracks.append(cp)
+                cp.append(Message('note_on', note=99, time=5))
+                if len(cp) > 1:
+                    del cp[0]
+                stats['fault:slice_copy_edited_elsewhere'] += 1
+            elif e == 'text_set':
+                idx = [j for j, m in enumerate(tr) if m.type == 'text']
+                if idx:
+                    i = idx[b % len(idx)]
+                    txt = ('\u20acuro', '\xe9t\xe9', 'ok', '\xff', '\u65e5')[val % 5]
+                    tr[i].text = txt
+                    if mtr is not None:
+                        mtr[i] = mtr[i].copy(text=txt)
             elif e == 'bad_track_name':
                 # a name the track cannot take: the assignment raises and the track stays as it was
                 if isinstance(tr, MidiTrack):
@@ -494,6 +530,10 @@ class History(BaseEngine):
 
     def _simulate(self, plan, log, stats, cov):
         self._held = {}
+        self._hold_tracks = bool(plan.get('hold_tracks'))
+        self._tracks_ref = {}
+        if self._hold_tracks:
+            stats['fault:tracks_list_reference_kept'] += 1
         a = self._make(plan)
         b = self._make(plan)
         model = {'type': a.type, 'tpb': a.ticks_per_beat, 'tracks': [[dc(m) for m in t] for t in a.tracks]}
